@@ -21,6 +21,12 @@ func (st *State) decide(c *Term) bool {
 	if c.Op == OConst {
 		return c.K != 0
 	}
+	if len(st.pinned) > 0 {
+		c = Subst(c, st.pinned, map[*Term]*Term{})
+		if c.Op == OConst {
+			return c.K != 0
+		}
+	}
 	if st.spec {
 		// no forking while if-converting: the condition must be decided by the path condition
 		w := st.run.workerOf(st)
@@ -75,6 +81,12 @@ func (st *State) concretize(t *Term) uint64 {
 	if t.Op == OConst {
 		return t.K
 	}
+	if len(st.pinned) > 0 {
+		t = Subst(t, st.pinned, map[*Term]*Term{})
+		if t.Op == OConst {
+			return t.K
+		}
+	}
 	if st.spec {
 		panic(specAbort{})
 	}
@@ -104,11 +116,42 @@ func (st *State) concretize(t *Term) uint64 {
 		st.solverTrouble(r)
 	}
 	st.pc = st.pc.Push(eq)
+	// pin every variable of t that the path condition now determines uniquely
+	vs := map[*Term]bool{}
+	Vars(t, vs, map[*Term]bool{})
+	if len(vs) <= 4 {
+		for x := range vs {
+			if _, ok := st.pinned[x.Name]; ok {
+				continue
+			}
+			if st.model == nil {
+				break
+			}
+			xv := st.model[x.Name] & mask1(x.W)
+			var ne *Term
+			if x.W == 0 {
+				ne = Not(Eq(x, B(xv != 0)))
+			} else {
+				ne = Not(Eq(x, C(x.W, xv)))
+			}
+			if r, _ := w.solver.Check(st.pc, ne, false); r == Unsat {
+				np := make(map[string]uint64, len(st.pinned)+1)
+				for k, y := range st.pinned {
+					np[k] = y
+				}
+				np[x.Name] = xv
+				st.pinned = np
+			}
+		}
+	}
 	return v
 }
 
 // assume adds c to the path condition; kills the path if infeasible.
 func (st *State) assume(c *Term) {
+	if len(st.pinned) > 0 && c.Op != OConst {
+		c = Subst(c, st.pinned, map[*Term]*Term{})
+	}
 	if c.Op == OConst {
 		if c.K == 0 {
 			st.status = Killed
